@@ -2,7 +2,7 @@
 from __future__ import annotations
 
 from dep_logic.markers import AnyMarker, EmptyMarker, MarkerUnion, MultiMarker
-from dep_logic.markers.single import SingleMarker
+from dep_logic.markers.single import EqualityMarkerUnion, InequalityMultiMarker, SingleMarker
 
 
 def ev_vector(m, envs):
@@ -22,6 +22,9 @@ def variables(m):
 
 def nf(m):
     """normal form of C15; returns None if fine, else a reason"""
+    if isinstance(m, (EqualityMarkerUnion, InequalityMultiMarker)):
+        # an atom group is a group: one value is the plain atom, none is the empty / universal marker
+        return None if len(m.values) >= 2 else f"{type(m).__name__} with {len(m.values)} value(s)"
     if isinstance(m, (AnyMarker, EmptyMarker, SingleMarker)):
         return None
     if isinstance(m, (MultiMarker, MarkerUnion)):
